@@ -232,6 +232,15 @@ def gen_schedules(ctx, quick):
             if rng.random() < 0.5:
                 s.insert(rng.randrange(len(s)), ["c", who])
         out.append((2, pre, s, "crash-or-unlock-inserted"))
+    # three contenders around the release window: P0 holds, P1 has the lock file open, P0 unlocks (k of its 2 calls done),
+    # P1 continues for m calls, P0 finishes, a newcomer P2 runs, P1 runs
+    for pre in ("none", "empty"):
+        for a in (1, 2):
+            for k in (0, 1, 2):
+                for m in range(0, 8):
+                    s = [["s", 0]] * 6 + [["s", 1]] * a + [["u", 0]] + [["s", 0]] * k + [["s", 1]] * m + [["s", 0]] * (2 - k) + \
+                        [["s", 2]] * 8 + [["s", 1]] * 8
+                    out.append((3, pre, s, "release-window-3"))
     # three contenders: random schedules
     for _ in range(150 if quick else 3000):
         pre = rng.choice(["none", "empty", "garbage", "deadpid"])
